@@ -37,6 +37,7 @@ from spyne.error import ResourceNotFoundError
 from spyne.model import ByteArray, File, Fault, ComplexModelBase, Array, Any, \
     AnyDict, Uuid, Unicode
 
+from spyne.model.complex import XmlModifier
 from spyne.protocol.dictdoc import DictDocument
 
 
@@ -198,6 +199,11 @@ class HierDictDocument(DictDocument):
             raise ValidationError([key, inst])
 
     def _from_dict_value(self, ctx, key, cls, inst, validator):
+        if issubclass(cls, XmlModifier):
+            # there are no attributes in a dict document: the member is read
+            # (and checked) as a value of the type it wraps.
+            cls = cls.type
+
         if validator is self.SOFT_VALIDATION:
             self.validate(key, cls, inst)
 
